@@ -348,7 +348,10 @@ def run(ctx):
                 f.write(stream.hex())
             spec = dict(stream_hex=stream.hex(), model=model, n_messages=len(expected), definitions=stats['defs'])
             try:
-                p = subprocess.run([sys.executable, '-m', 'mon.c20_runner', hf], capture_output=True, timeout=180, env=env,
+                variant = ['default', 'default', 'filter', 'continue', 'unwired', 'filter'][q % 6]
+                ctx.add('scan_variants', variant)
+                spec['scan_variant'] = variant
+                p = subprocess.run([sys.executable, '-m', 'mon.c20_runner', hf, variant], capture_output=True, timeout=180, env=env,
                                    cwd=os.environ.get('VERIF_DIR', '/verif'))
                 out = json.loads(p.stdout.decode())
             except Exception as e:
@@ -419,7 +422,7 @@ def replay(ctx, case):
     hf = os.path.join(scratch, 's.hex')
     with open(hf, 'w') as f:
         f.write(spec['stream_hex'])
-    p = subprocess.run([sys.executable, '-m', 'mon.c20_runner', hf], capture_output=True, timeout=180,
+    p = subprocess.run([sys.executable, '-m', 'mon.c20_runner', hf, spec.get('scan_variant', 'default')], capture_output=True, timeout=180,
                        cwd=os.environ.get('VERIF_DIR', '/verif'))
     out = json.loads(p.stdout.decode())
     ctx.evaluated(spec['stream_hex'][:64], True)
